@@ -242,9 +242,9 @@ zLUMemInit(fact_t fact, void *work, int_t lwork, int m, int n, int_t annz,
 	} else {
 	    xsup   = (int *)zuser_malloc((n+1) * iword, HEAD, Glu);
 	    supno  = (int *)zuser_malloc((n+1) * iword, HEAD, Glu);
-	    xlsub  = zuser_malloc((n+1) * iword, HEAD, Glu);
-	    xlusup = zuser_malloc((n+1) * iword, HEAD, Glu);
-	    xusub  = zuser_malloc((n+1) * iword, HEAD, Glu);
+	    xlsub  = zuser_malloc((n+1) * sizeof(int_t), HEAD, Glu);
+	    xlusup = zuser_malloc((n+1) * sizeof(int_t), HEAD, Glu);
+	    xusub  = zuser_malloc((n+1) * sizeof(int_t), HEAD, Glu);
 	}
 
 	if ( Glu->MemModel == USER &&
